@@ -346,7 +346,11 @@ def run(body, start_bb, env, call=None, max_steps=400, prog=None, depth=0, inlin
                 elif isinstance(a, (int, bool)) and isinstance(b, (int, bool)):
                     a, b = int(a), int(b)
                     v = {"Eq": a == b, "Ne": a != b, "Lt": a < b, "Le": a <= b, "Gt": a > b, "Ge": a >= b,
-                         "BitAnd": a & b, "BitOr": a | b, "BitXor": a ^ b}.get(op)
+                         "BitAnd": a & b, "BitOr": a | b, "BitXor": a ^ b,
+                         "Add": a + b, "Sub": a - b, "AddUnchecked": a + b, "SubUnchecked": a - b, "Mul": a * b}.get(op)
+                    if op in ("AddWithOverflow", "SubWithOverflow", "MulWithOverflow"):
+                        r_ = a + b if op[0] == "A" else (a - b if op[0] == "S" else a * b)
+                        v = ("tuple", [r_, r_ < 0 or r_ >= 2 ** 64])      # small concrete counters: no overflow in reach
                     if v is None:
                         raise Unrecognised("binop %s" % op)
                     if op in ("BitAnd", "BitOr", "BitXor") and max(a, b) <= 1:
